@@ -21,3 +21,15 @@ Example C02_nonvacuous :
   c02_ok c [[Tx 1 (PPublish 1 2 false 0); Ret 0 1 2 0]; [Inp (IPubrec 1); Tx 1 (PPubrel 1 0)];
             [Reconn; SockOpened 2; Tx 2 PConnect]; [Inp (IConnack 0); Tx 2 (PPublish 1 2 true 0)]] = false.
 Proof. vm_compute. repeat split; reflexivity. Qed.
+
+(* ------------------------------------------------------------------------------------------
+   The same property on the second-generation session model (coq/theories/Session2): the client's
+   output queue and a transport that may refuse writes are modelled; events distinguish a packet
+   HANDED to the connection from a packet WRITTEN; reconnect() drops what is still queued. *)
+From PahoV Require Import Session2.Model Session2.Check Session2.Statements Session2.C02Proofs.
+
+(* no written PUBLISH after PUBREC; DUP = 1 when an earlier connection wrote the PUBLISH, DUP = 0 when it was never handed over before, either value when it was handed over but never written; PUBREL handed over in the operation of every accepting CONNECT acknowledgement *)
+Theorem C02_with_blocking_transport : forall c ops,
+  cfg_ok c = true -> conforming c ops = true -> c02_ok c (optrace c ops) = true.
+Proof. exact c02_proved. Qed.
+Print Assumptions C02_with_blocking_transport.
